@@ -8,62 +8,56 @@ Import ListNotations.
 Open Scope Z_scope.
 
 (** an update, directly or as a pending tree *)
-Definition st_update (pending : bool) (ord : hash -> N) (c : cfg) (s : store) (r : root) (bh : Z)
+Definition st_update (pending : bool) (c : cfg) (s : store) (r : root) (bh : Z)
   (kvs : list (bytes * bytes)) : res (root * store) :=
-  if pending then st_memset c s r bh kvs else st_set ord c s r bh kvs.
+  if pending then st_memset c s r bh kvs else st_set c s r bh kvs.
 
-(** the guard of the root theorems: not (a direct update with no writes whose
-    loaded root object carries an aliased hash) *)
-Definition plain_update (pending : bool) (s : store) (r : root) (kvs : list (bytes * bytes)) : bool :=
-  pending || plain_root s r kvs.
-
-Theorem root_deterministic : forall pending ord c s r bh kvs r' s',
-  store_sound s -> plain_update pending s r kvs = true ->
-  st_update pending ord c s r bh kvs = Ok (r', s') ->
+Theorem root_deterministic_state : forall pending c s r bh kvs r' s',
+  store_sound s ->
+  st_update pending c s r bh kvs = Ok (r', s') ->
   exists o', t_set_all (root_tree r) kvs = Some o' /\ r' = tree_root o'.
 Proof.
-  intros [|] ord c s r bh kvs r' s' S G H; simpl in H.
+  intros [|] c s r bh kvs r' s' S H; simpl in H.
   - apply (st_memset_ok _ _ _ _ _ _ _ S H).
-  - simpl in G. destruct (st_set_ok _ _ _ _ _ _ _ _ S H) as [_ X]. apply X. exact G.
+  - apply (st_set_ok _ _ _ _ _ _ _ S H).
 Qed.
 
-Theorem root_cfg_independent : forall p1 p2 o1 o2 c1 c2 s1 s2 r bh1 bh2 kvs r1 r2 s1' s2',
+Theorem root_cfg_independent : forall p1 p2 c1 c2 s1 s2 r bh1 bh2 kvs r1 r2 s1' s2',
   store_sound s1 -> store_sound s2 ->
-  plain_update p1 s1 r kvs = true -> plain_update p2 s2 r kvs = true ->
-  st_update p1 o1 c1 s1 r bh1 kvs = Ok (r1, s1') ->
-  st_update p2 o2 c2 s2 r bh2 kvs = Ok (r2, s2') ->
+  st_update p1 c1 s1 r bh1 kvs = Ok (r1, s1') ->
+  st_update p2 c2 s2 r bh2 kvs = Ok (r2, s2') ->
   r1 = r2.
 Proof.
-  intros p1 p2 o1 o2 c1 c2 s1 s2 r bh1 bh2 kvs r1 r2 s1' s2' S1 S2 G1 G2 H1 H2.
-  destruct (root_deterministic _ _ _ _ _ _ _ _ _ S1 G1 H1) as (t1 & T1 & E1).
-  destruct (root_deterministic _ _ _ _ _ _ _ _ _ S2 G2 H2) as (t2 & T2 & E2).
+  intros p1 p2 c1 c2 s1 s2 r bh1 bh2 kvs r1 r2 s1' s2' S1 S2 H1 H2.
+  destruct (root_deterministic_state _ _ _ _ _ _ _ _ S1 H1) as (t1 & T1 & E1).
+  destruct (root_deterministic_state _ _ _ _ _ _ _ _ S2 H2) as (t2 & T2 & E2).
   congruence.
 Qed.
 
 (** every operation keeps the database, both caches and the pending trees sound *)
-Theorem sound_invariant : forall ord c s, store_sound s ->
-  (forall r bh kvs r' s', st_set ord c s r bh kvs = Ok (r', s') -> store_sound s') /\
+Theorem sound_invariant : forall c s, store_sound s ->
+  (forall r bh kvs r' s', st_set c s r bh kvs = Ok (r', s') -> store_sound s') /\
   (forall r bh kvs r' s', st_memset c s r bh kvs = Ok (r', s') -> store_sound s') /\
-  (forall r r' s', st_commit ord c s r = Ok (r', s') -> store_sound s') /\
+  (forall r r' s', st_commit c s r = Ok (r', s') -> store_sound s') /\
   (forall r r' s', st_rollback c s r = Ok (r', s') -> store_sound s') /\
   (forall r o s', st_probe c s r = Ok (o, s') -> store_sound s').
 Proof.
-  intros ord c s S. split; [|split; [|split; [|split]]].
-  - intros r bh kvs r' s' H. apply (st_set_ok _ _ _ _ _ _ _ _ S H).
+  intros c s S. split; [|split; [|split; [|split]]].
+  - intros r bh kvs r' s' H. apply (st_set_ok _ _ _ _ _ _ _ S H).
   - intros r bh kvs r' s' H. apply (st_memset_ok _ _ _ _ _ _ _ S H).
-  - intros r r' s' H. apply (st_commit_ok _ _ _ _ _ _ S H).
+  - intros r r' s' H. apply (st_commit_ok _ _ _ _ _ S H).
   - intros r r' s' H. apply (st_rollback_ok _ _ _ _ _ S H).
   - intros r o s' H. apply (st_probe_ok _ _ _ _ _ S H).
 Qed.
 
-Theorem cache_sound_invariant : forall ord c s, store_sound s ->
-  (forall r bh kvs r' s', st_set ord c s r bh kvs = Ok (r', s') -> cache_sound s') /\
+Theorem cache_sound_invariant : forall c s, store_sound s ->
+  (forall r bh kvs r' s', st_set c s r bh kvs = Ok (r', s') -> cache_sound s') /\
   (forall r bh kvs r' s', st_memset c s r bh kvs = Ok (r', s') -> cache_sound s') /\
-  (forall r r' s', st_commit ord c s r = Ok (r', s') -> cache_sound s') /\
+  (forall r r' s', st_commit c s r = Ok (r', s') -> cache_sound s') /\
   (forall r r' s', st_rollback c s r = Ok (r', s') -> cache_sound s') /\
   (forall r o s', st_probe c s r = Ok (o, s') -> cache_sound s').
 Proof.
-  intros ord c s S. destruct (sound_invariant ord c s S) as (A & B & C & D & E).
+  intros c s S. destruct (sound_invariant c s S) as (A & B & C & D & E).
   split; [|split; [|split; [|split]]].
   - intros r bh kvs r' s' H. apply (A _ _ _ _ _ H).
   - intros r bh kvs r' s' H. apply (B _ _ _ _ _ H).
@@ -87,8 +81,7 @@ Proof.
   intros c s r bh kvs o lru1 mem1 obs NE H. unfold prepare in H.
   destruct (load_at c s r) as [[o0 lg0]|]; [|discriminate].
   destruct (aset_all o0 kvs lg0) as [[o1 lg]|] eqn:AS; [|discriminate].
-  match type of H with context [run_log c (s_db s) ?x _] => set (lg' := x) in H end.
-  destruct (run_log c (s_db s) lg' (s_lru s, s_mem s, [])) as [[l1 m1] ob1].
+  destruct (run_log c (s_db s) lg (s_lru s, s_mem s, [])) as [[l1 m1] ob1].
   inversion H; subst; clear H.
   assert (o1 <> None).
   { destruct kvs as [|[k v] kvs]; [congruence|]. simpl in AS. destruct o0 as [t|].
@@ -97,61 +90,58 @@ Proof.
   destruct o1; [discriminate|congruence].
 Qed.
 
-Lemma do_save_noprune : forall ord c s t bh rh, c_prune c = false -> exists s', do_save ord c s t bh rh = Some s'.
+Lemma do_save_noprune : forall c s t bh, c_prune c = false -> exists s', do_save c s t bh = Some s'.
 Proof.
-  intros ord c s t bh rh NP. unfold do_save. rewrite NP.
+  intros c s t bh NP. unfold do_save. rewrite NP.
   destruct (asave (c_mvcc c) t (s_db s, s_lru s)) as [db2 lru2]. eexists. reflexivity.
 Qed.
 
-Theorem memset_commit_eq_set : forall ord c s r bh kvs r1 s1,
+Theorem memset_commit_eq_set : forall c s r bh kvs r1 s1,
   kvs <> [] -> st_memset c s r bh kvs = Ok (r1, s1) ->
-  (forall r2 s2, st_commit ord c s1 r1 = Ok (r2, s2) -> r2 = r1) /\
-  (forall r' s' s2, st_set ord c s r bh kvs = Ok (r', s') -> st_commit ord c s1 r1 = Ok (r1, s2) ->
+  (forall r2 s2, st_commit c s1 r1 = Ok (r2, s2) -> r2 = r1) /\
+  (forall r' s' s2, st_set c s r bh kvs = Ok (r', s') -> st_commit c s1 r1 = Ok (r1, s2) ->
                     r' = r1 /\ s_db s2 = s_db s' /\ s_idx s2 = s_idx s') /\
-  (forall r' s', st_set ord c s r bh kvs = Ok (r', s') -> r' = r1) /\
+  (forall r' s', st_set c s r bh kvs = Ok (r', s') -> r' = r1) /\
   (c_prune c = false ->
-   exists s2 s', st_commit ord c s1 r1 = Ok (r1, s2) /\ st_set ord c s r bh kvs = Ok (r1, s')).
+   exists s2 s', st_commit c s1 r1 = Ok (r1, s2) /\ st_set c s r bh kvs = Ok (r1, s')).
 Proof.
-  intros ord c s r bh kvs r1 s1 NE H. unfold st_memset in H.
+  intros c s r bh kvs r1 s1 NE H. unfold st_memset in H.
   destruct kvs as [|kv kvs]; [congruence|]. remember (kv :: kvs) as kvs0.
   unfold st_set.
   destruct (prepare c s r bh kvs0) as [[[[o lru1] mem1] obs]| | |] eqn:PR; try discriminate.
   pose proof (prepare_some _ _ _ _ _ _ _ _ _ NE PR) as NN.
   destruct o as [t|]; [|congruence].
   injection H as <- <-.
-  assert (RH : match kvs0, root_says s r with [], Some g => g | _, _ => ahash t end = ahash t).
-  { subst kvs0. reflexivity. }
-  rewrite RH. clear RH.
   set (mem2 := if c_memtree c then _ else mem1).
   set (s1 := with_pend (with_caches s lru1 mem2) _).
   assert (PG : p_get (s_pend s1) (Some (ahash t)) = Some (Some (t, bh))).
   { subst s1. simpl. rewrite hash_eqb_refl. reflexivity. }
   unfold st_commit. rewrite PG.
   split; [|split; [|split]].
-  - intros r2 s2 E. destruct (do_save ord c s1 t bh (ahash t)); [|discriminate]. inversion E. reflexivity.
+  - intros r2 s2 E. destruct (do_save c s1 t bh); [|discriminate]. inversion E. reflexivity.
   - intros r' s' s2 E1 E2.
-    destruct (do_save ord c (with_caches s lru1 mem1) t bh (ahash t)) as [sa|] eqn:SA; [|discriminate].
-    destruct (do_save ord c s1 t bh (ahash t)) as [sb|] eqn:SB; [|discriminate].
+    destruct (do_save c (with_caches s lru1 mem1) t bh) as [sa|] eqn:SA; [|discriminate].
+    destruct (do_save c s1 t bh) as [sb|] eqn:SB; [|discriminate].
     inversion E1; subst. inversion E2; subst.
-    destruct (do_save_db _ _ _ _ _ _ _ SA) as (DA & IA & _).
-    destruct (do_save_db _ _ _ _ _ _ _ SB) as (DB & IB & _).
+    destruct (do_save_db _ _ _ _ _ SA) as (DA & IA & _).
+    destruct (do_save_db _ _ _ _ _ SB) as (DB & IB & _).
     split; [reflexivity|]. simpl. rewrite DA, DB, IA, IB. subst s1. simpl. auto.
   - intros r' s' E.
-    destruct (do_save ord c (with_caches s lru1 mem1) t bh (ahash t)) as [sa|]; [|discriminate].
+    destruct (do_save c (with_caches s lru1 mem1) t bh) as [sa|]; [|discriminate].
     inversion E. reflexivity.
   - intros NP.
-    destruct (do_save_noprune ord c s1 t bh (ahash t) NP) as [sb SB].
-    destruct (do_save_noprune ord c (with_caches s lru1 mem1) t bh (ahash t) NP) as [sa SA].
+    destruct (do_save_noprune c s1 t bh NP) as [sb SB].
+    destruct (do_save_noprune c (with_caches s lru1 mem1) t bh NP) as [sa SA].
     rewrite SB, SA. eexists. eexists. split; reflexivity.
 Qed.
 
 (** the empty update: MemSet answers with the parent's root without loading it,
     and Commit of that answer changes nothing but the table of pending trees *)
-Theorem memset_empty : forall ord c s r,
+Theorem memset_empty : forall c s r,
   exists s1, st_memset c s r 0 [] = Ok (r, s1) /\ s_db s1 = s_db s /\
-  exists s2, st_commit ord c s1 r = Ok (r, s2) /\ s_db s2 = s_db s.
+  exists s2, st_commit c s1 r = Ok (r, s2) /\ s_db s2 = s_db s.
 Proof.
-  intros ord c s r. eexists. split; [reflexivity|]. split; [reflexivity|].
+  intros c s r. eexists. split; [reflexivity|]. split; [reflexivity|].
   unfold st_commit. simpl. rewrite root_eqb_refl. eexists. split; reflexivity.
 Qed.
 
@@ -165,113 +155,63 @@ Inductive sop :=
 
 (** the store after an operation (unchanged if it fails) and the root it
     committed, if any *)
-Definition apply_sop (ord : hash -> N) (c : cfg) (s : store) (o : sop) : store * option root :=
+Definition apply_sop (c : cfg) (s : store) (o : sop) : store * option root :=
   match o with
-  | SSet r bh kvs => match st_set ord c s r bh kvs with Ok (r', s') => (s', Some r') | _ => (s, None) end
+  | SSet r bh kvs => match st_set c s r bh kvs with Ok (r', s') => (s', Some r') | _ => (s, None) end
   | SMemSet r bh kvs => match st_memset c s r bh kvs with Ok (_, s') => (s', None) | _ => (s, None) end
-  | SCommit r => match st_commit ord c s r with Ok (r', s') => (s', Some r') | _ => (s, None) end
+  | SCommit r => match st_commit c s r with Ok (r', s') => (s', Some r') | _ => (s, None) end
   | SRollback r => match st_rollback c s r with Ok (_, s') => (s', None) | _ => (s, None) end
   | SProbe r => match st_probe c s r with Ok (_, s') => (s', None) | _ => (s, None) end
   end.
 
-Fixpoint exec (ord : hash -> N) (c : cfg) (s : store) (committed : list root) (ops : list sop)
+Fixpoint exec (c : cfg) (s : store) (committed : list root) (ops : list sop)
   : store * list root :=
   match ops with
   | [] => (s, committed)
   | o :: tl =>
-      let '(s', cr) := apply_sop ord c s o in
-      exec ord c s' (match cr with Some r => r :: committed | None => committed end) tl
+      let '(s', cr) := apply_sop c s o in
+      exec c s' (match cr with Some r => r :: committed | None => committed end) tl
   end.
 
-Lemma apply_sop_sound : forall ord c s o, store_sound s -> store_sound (fst (apply_sop ord c s o)).
+Lemma apply_sop_sound : forall c s o, store_sound s -> store_sound (fst (apply_sop c s o)).
 Proof.
-  intros ord c s o S. destruct (sound_invariant ord c s S) as (A & B & C & D & E).
+  intros c s o S. destruct (sound_invariant c s S) as (A & B & C & D & E).
   destruct o as [r bh kvs|r bh kvs|r|r|r]; simpl.
-  - destruct (st_set ord c s r bh kvs) as [[r' s']| | |] eqn:H; simpl; eauto.
+  - destruct (st_set c s r bh kvs) as [[r' s']| | |] eqn:H; simpl; eauto.
   - destruct (st_memset c s r bh kvs) as [[r' s']| | |] eqn:H; simpl; eauto.
-  - destruct (st_commit ord c s r) as [[r' s']| | |] eqn:H; simpl; eauto.
+  - destruct (st_commit c s r) as [[r' s']| | |] eqn:H; simpl; eauto.
   - destruct (st_rollback c s r) as [[r' s']| | |] eqn:H; simpl; eauto.
   - destruct (st_probe c s r) as [[r' s']| | |] eqn:H; simpl; eauto.
 Qed.
 
-Theorem exec_sound : forall ord c ops s cm, store_sound s -> store_sound (fst (exec ord c s cm ops)).
+Theorem exec_sound : forall c ops s cm, store_sound s -> store_sound (fst (exec c s cm ops)).
 Proof.
-  intros ord c. induction ops as [|o ops IH]; intros s cm S; simpl; [exact S|].
-  pose proof (apply_sop_sound ord c s o S) as S'.
-  destruct (apply_sop ord c s o) as [s' cr]. simpl in S'. apply IH. exact S'.
-Qed.
-
-(** without prune no cache entry is ever aliased *)
-Lemma al_clean_nil : forall lru, al_clean lru [] = [].
-Proof. reflexivity. Qed.
-
-Lemma do_save_noalias : forall ord c s t bh rh s',
-  c_prune c = false -> s_alias s = [] -> do_save ord c s t bh rh = Some s' -> s_alias s' = [].
-Proof.
-  intros ord c s t bh rh s' NP A H. unfold do_save in H. rewrite NP in H.
-  destruct (asave (c_mvcc c) t (s_db s, s_lru s)) as [d l]. inversion H; subst. simpl. rewrite A. reflexivity.
-Qed.
-
-Lemma apply_sop_noalias : forall ord c s o,
-  c_prune c = false -> s_alias s = [] -> s_alias (fst (apply_sop ord c s o)) = [].
-Proof.
-  intros ord c s o NP A. destruct o as [r bh kvs|r bh kvs|r|r|r]; simpl.
-  - destruct (st_set ord c s r bh kvs) as [[r' s']| | |] eqn:H; simpl; auto.
-    unfold st_set in H. destruct (prepare c s r bh kvs) as [[[[o lru1] mem1] obs]| | |]; try discriminate.
-    destruct o as [t|].
-    + destruct (do_save ord c (with_caches s lru1 mem1) t bh _) as [s1|] eqn:SV; [|discriminate].
-      inversion H; subst.
-      assert (A1 : s_alias (with_caches s lru1 mem1) = []) by (simpl; rewrite A; reflexivity).
-      exact (do_save_noalias _ _ _ _ _ _ _ NP A1 SV).
-    + inversion H; subst. simpl. rewrite A. reflexivity.
-  - destruct (st_memset c s r bh kvs) as [[r' s']| | |] eqn:H; simpl; auto.
-    unfold st_memset in H. destruct kvs as [|kv kvs].
-    + inversion H; subst. exact A.
-    + destruct (prepare c s r bh (kv :: kvs)) as [[[[o lru1] mem1] obs]| | |]; try discriminate.
-      destruct o as [t|]; inversion H; subst; simpl; rewrite A; reflexivity.
-  - destruct (st_commit ord c s r) as [[r' s']| | |] eqn:H; simpl; auto.
-    unfold st_commit in H. destruct (p_get (s_pend s) r) as [[[t bh]|]|]; try discriminate.
-    + destruct (do_save ord c s t bh (ahash t)) as [s1|] eqn:SV; [|discriminate].
-      inversion H; subst. simpl. exact (do_save_noalias _ _ _ _ _ _ _ NP A SV).
-    + inversion H; subst. exact A.
-  - destruct (st_rollback c s r) as [[r' s']| | |] eqn:H; simpl; auto.
-    unfold st_rollback in H. destruct (p_get (s_pend s) r); [|discriminate]. inversion H; subst. exact A.
-  - destruct (st_probe c s r) as [[r' s']| | |] eqn:H; simpl; auto.
-    unfold st_probe in H. destruct (load_at c s r) as [[[t|] lg]|]; try discriminate.
-    + destruct (has_missing t); [discriminate|].
-      destruct (run_log c (s_db s) (visits t []) (s_lru s, s_mem s, [])) as [[l1 m1] o1].
-      inversion H; subst. simpl. rewrite A. reflexivity.
-    + inversion H; subst. exact A.
-Qed.
-
-Theorem exec_noalias : forall ord c ops s cm,
-  c_prune c = false -> s_alias s = [] -> s_alias (fst (exec ord c s cm ops)) = [].
-Proof.
-  intros ord c. induction ops as [|o ops IH]; intros s cm NP A; simpl; [exact A|].
-  pose proof (apply_sop_noalias ord c s o NP A) as A'.
-  destruct (apply_sop ord c s o) as [s' cr]. simpl in A'. apply IH; auto.
-Qed.
-
-Lemma noalias_plain : forall pending s r kvs, s_alias s = [] -> plain_update pending s r kvs = true.
-Proof.
-  intros pending s r kvs A. unfold plain_update, plain_root, root_says. rewrite A.
-  destruct pending; simpl; [reflexivity|]. destruct kvs; destruct r; reflexivity.
+  intros c. induction ops as [|o ops IH]; intros s cm S; simpl; [exact S|].
+  pose proof (apply_sop_sound c s o S) as S'.
+  destruct (apply_sop c s o) as [s' cr]. simpl in S'. apply IH. exact S'.
 Qed.
 
 (** Full strength 1: the root of every successful update is the pure root. *)
 Definition root_deterministic_full : Prop :=
-  forall pending ord c ops r bh kvs r' s',
-    let s := fst (exec ord c empty_store [None] ops) in
-    st_update pending ord c s r bh kvs = Ok (r', s') ->
+  forall pending c ops r bh kvs r' s',
+    let s := fst (exec c empty_store [None] ops) in
+    st_update pending c s r bh kvs = Ok (r', s') ->
     exists o', t_set_all (root_tree r) kvs = Some o' /\ r' = tree_root o'.
+
+Theorem root_deterministic : root_deterministic_full.
+Proof.
+  intros pending c ops r bh kvs r' s' s H.
+  apply (root_deterministic_state pending c s r bh kvs r' s'); [|exact H].
+  apply exec_sound. apply empty_sound.
+Qed.
 
 (** Full strength 2: after any history, an update of the empty root or of a root
     that the history committed succeeds, under every configuration. *)
 Definition update_total_full : Prop :=
-  forall ord c ops r pending bh kvs,
-    let '(s, committed) := exec ord c empty_store [None] ops in
+  forall c ops r pending bh kvs,
+    let '(s, committed) := exec c empty_store [None] ops in
     In r committed ->
-    exists r' s', st_update pending ord c s r bh kvs = Ok (r', s').
+    exists r' s', st_update pending c s r bh kvs = Ok (r', s').
 
 From Coq Require Strings.String.
 Import Coq.Strings.String.StringSyntax.
@@ -280,10 +220,9 @@ Definition kb (s : String.string) : bytes := bs s.
 
 (** ... 2 fails with prefix + memTree after a rolled-back rewrite. *)
 Definition kf_cfg : cfg := mk_cfg true false false 0 true false 0.
-Definition ord0 : hash -> N := fun _ => 0%N.
 
 Definition kf_ops : list sop :=
-  let r0 := match st_set ord0 kf_cfg empty_store None 1 [(kb "c", kb "0"); (kb "a", kb "0")] with
+  let r0 := match st_set kf_cfg empty_store None 1 [(kb "c", kb "0"); (kb "a", kb "0")] with
             | Ok (r, _) => r | _ => None end in
   [ SSet None 1 [(kb "c", kb "0"); (kb "a", kb "0")];
     SMemSet r0 3 [(kb "c", kb "1"); (kb "c", kb "0"); (kb "a", kb "0")];
@@ -292,38 +231,10 @@ Definition kf_ops : list sop :=
 Theorem update_total_refuted : ~ update_total_full.
 Proof.
   intros F.
-  specialize (F ord0 kf_cfg kf_ops
-                (match st_set ord0 kf_cfg empty_store None 1 [(kb "c", kb "0"); (kb "a", kb "0")] with
+  specialize (F kf_cfg kf_ops
+                (match st_set kf_cfg empty_store None 1 [(kb "c", kb "0"); (kb "a", kb "0")] with
                  | Ok (r, _) => r | _ => None end)
                 false 1 [(kb "g", kb "1")]).
   vm_compute in F.
   destruct F as (r' & s' & E); [left; reflexivity|discriminate].
-Qed.
-
-(** ... 1 fails with prune: the root object that the prune bookkeeping put into
-    the ARC cache says it is another root, and a Set with no writes returns that. *)
-Definition al_cfg : cfg := new_cfg (mk_cfg false false true 0 false false 0).
-Definition al_kvs := [(kb "k3", kb "v"); (kb "k1", kb "v"); (kb "k5", kb "v"); (kb "k2", kb "w");
-                      (kb "k4", kb "v"); (kb "k6", kb "v"); (kb "k0", kb "v")].
-Definition al_r1 : root :=
-  match st_set ord0 al_cfg empty_store None 2 al_kvs with Ok (r, _) => r | _ => None end.
-(* a byte order in which the first root is not the smallest *)
-Definition al_ord : hash -> N :=
-  fun h => match al_r1 with Some h1 => if hash_eqb h h1 then 1%N else 0%N | None => 0%N end.
-Definition al_ops : list sop :=
-  [ SSet None 2 al_kvs; SSet al_r1 2 [(kb "k1", kb "x")]; SSet al_r1 2 [(kb "k2", kb "y")] ].
-
-Theorem root_deterministic_refuted : ~ root_deterministic_full.
-Proof.
-  intros F.
-  specialize (F false al_ord al_cfg al_ops al_r1 1 []).
-  cbv zeta in F.
-  destruct (st_set al_ord al_cfg (fst (exec al_ord al_cfg empty_store [None] al_ops)) al_r1 1 [])
-    as [[r' s']| | |] eqn:E.
-  - specialize (F r' s' E). destruct F as (o' & T & R).
-    cbn [t_set_all] in T. injection T as <-. subst r'.
-    revert E. vm_compute. intros E. inversion E.
-  - revert E. vm_compute. discriminate.
-  - revert E. vm_compute. discriminate.
-  - revert E. vm_compute. discriminate.
 Qed.
